@@ -363,7 +363,6 @@ fn sample_rate_code<'a, E>(
 where
     E: ParseError<&'a [u8]>,
 {
-    debug_assert!(tag <= 0b1110);
     move |input| {
         let remaining_input = input;
         let (remaining_input, data) = if tag == 0b1100 {
@@ -451,7 +450,13 @@ where
     let (remaining_input, typetag) = bit_take(7usize)(remaining_input)?;
     let (remaining_input, wasted_flag): (_, u8) = bit_take(1usize)(remaining_input)?;
 
-    assert!(wasted_flag == 0); // not supported
+    if wasted_flag != 0 {
+        // not supported
+        return Err(nom::Err::Error(error_position!(
+            remaining_input,
+            nom::error::ErrorKind::TagBits
+        )));
+    }
 
     Ok((remaining_input, (typetag, wasted_flag != 0)))
 }
@@ -556,7 +561,13 @@ where
         }
         let order = (typetag as usize) - 0x20 + 1;
         let (remaining_input, warm_up) = raw_samples(bits_per_sample, order)(remaining_input)?;
-        let warm_up = heapless::Vec::try_from(warm_up.as_slice()).expect("Unexpected error");
+        let warm_up = heapless::Vec::try_from(warm_up.as_slice()).map_err(|()| {
+            // the order is not supported
+            nom::Err::Error(error_position!(
+                remaining_input,
+                nom::error::ErrorKind::TagBits
+            ))
+        })?;
 
         let (remaining_input, parameters) = quantized_parameters(order)(remaining_input)?;
         let (remaining_input, residual) = residual(block_size, order)(remaining_input)?;
@@ -592,8 +603,15 @@ where
         let (remaining_input, coefs) = raw_samples(precision, order)(remaining_input)?;
 
         let coefs: Vec<i16> = coefs.into_iter().map(|x| x as i16).collect();
-        let ret = component::QuantizedParameters::new(&coefs, order, shift, precision)
-            .expect("Unexpected error");
+        let ret = component::QuantizedParameters::new(&coefs, order, shift, precision).map_err(
+            |_e| {
+                // e.g. a reserved precision code, or a negative shift
+                nom::Err::Error(error_position!(
+                    remaining_input,
+                    nom::error::ErrorKind::Verify
+                ))
+            },
+        )?;
         Ok((remaining_input, ret))
     }
 }
@@ -661,6 +679,12 @@ where
 
         let partition_count = 1usize << (partition_order as usize);
         let partition_len = block_size / partition_count;
+        if partition_len * partition_count != block_size || partition_len < warmup_length.max(1) {
+            return Err(nom::Err::Error(error_position!(
+                remaining_input,
+                nom::error::ErrorKind::Verify
+            )));
+        }
 
         let mut rice_params = Vec::with_capacity(partition_count);
         let mut quotients = Vec::with_capacity(block_size);
@@ -668,7 +692,14 @@ where
 
         let mut remaining_input = remaining_input;
         for part in 0..partition_count {
-            let (i, rice_p) = bit_take(p_bits)(remaining_input)?;
+            let (i, rice_p): (_, u8) = bit_take(p_bits)(remaining_input)?;
+            if usize::from(rice_p) + 1 == 1usize << p_bits {
+                // escaped partitions are not supported
+                return Err(nom::Err::Error(error_position!(
+                    remaining_input,
+                    nom::error::ErrorKind::TagBits
+                )));
+            }
             remaining_input = i;
             rice_params.push(rice_p);
 
